@@ -21,6 +21,7 @@ from engine.par import pmap, Acc, merge_all
 # teachers_round(-0.49999999999999994) returns -1 (x % 1 rounds to exactly 0.5 in float64); the one-ulp neighbours of +-0.5
 # are left out of the grid unless this is set (then reported under .../one-ulp-from-half).
 ULP_NEIGHBOURS = False
+BOTH_FLAGS_EVERYWHERE = True      # set by run_bounded: quick tier runs copy=False on every second 3 x 3 matrix only
 
 
 # ---------------------------------------------------------------------------------------------- oracles
@@ -127,11 +128,11 @@ def check_threshold_proportional(acc, W, p, copy, ident):
              sample={'function': fname, 'W': W.tolist(), 'p': float(p), 'copy': copy, 'kept_cells': got, 'tie_at_cut': tie})
 
 
-def check_elementwise(acc, W, ident, thrs, float_ok):
+def check_elementwise(acc, W, ident, thrs, float_ok, copies=(True, False)):
     """threshold_absolute, binarize, normalize, invert, weight_conversion on one matrix, both copy flags."""
     n = len(W)
     off = ~np.eye(n, dtype=bool)
-    for copy in (True, False):
+    for copy in copies:
         for thr in thrs:
             fname = 'threshold_absolute'
             wit = {'function': fname, 'W': W.tolist(), 'dtype': str(W.dtype), 'thr': thr, 'copy': copy}
@@ -201,6 +202,8 @@ def worker_prop(task):
         W = _full_matrix(n, (0, 1, 2), idx, dtype)
         for p in ps:
             for copy in copies:
+                if copy is False and n == 3 and idx % 2 and not BOTH_FLAGS_EVERYWHERE:
+                    continue
                 check_threshold_proportional(acc, W, p, copy, (n, idx, str(np.dtype(dtype))))
     return acc
 
@@ -235,7 +238,8 @@ def worker_elem(task):
             for d in diags:
                 diag = DIAGS[n][d]
                 W = _elem_matrix(n, idx, diag, dtype)
-                check_elementwise(acc, W, (n, idx, d, str(np.dtype(dtype))), THRS, float_ok)
+                check_elementwise(acc, W, (n, idx, d, str(np.dtype(dtype))), THRS, float_ok,
+                                  copies=(True, False) if (BOTH_FLAGS_EVERYWHERE or idx % 2 == 0) else (True,))
     return acc
 
 
@@ -308,13 +312,15 @@ def chunks(lst, k):
 
 
 def run_bounded(run, tier, seed):
+    global BOTH_FLAGS_EVERYWHERE
     thorough = tier == 'thorough'
+    BOTH_FLAGS_EVERYWHERE = thorough          # read by the forked workers
     # ---- threshold_proportional, exhaustive small -------------------------------------------------------------------
     run.bounded_part('threshold_proportional-all-matrices-n<=3',
                      bounds={'matrices': 'every n x n matrix (diagonal included) with entries in {0,1,2}, n = 1..3 (3 + 81 + 19683), float64; int64 with copy=True%s' % ('' if thorough else ' (n = 3: every 5th matrix)'),
                              'p': 'for each n: 0, 1, .1, .3, .77, every m/c and every (m+.5)/c for c = n^2-n and c = (n^2-n)/2 (all values where p x count lands on .5; '
                                   'exact in float for p = .25, .5, .75; for the others both neighbouring integers are accepted, see module docstring)',
-                             'copy': 'True and False'},
+                             'copy': 'True and False' + ('' if thorough else ' (n = 3: copy=False on every second matrix)')},
                      rule='one case = (matrix, p, copy); non-trivial = at least one connection kept and one dropped; distinct by (n, matrix index, dtype, p, copy)',
                      exhaustive=thorough)
     tasks = []
@@ -329,7 +335,7 @@ def run_bounded(run, tier, seed):
     # ---- elementwise utilities --------------------------------------------------------------------------------------
     run.bounded_part('elementwise-utilities-small',
                      bounds={'matrices': 'every matrix with entries in {-2..2} for n = 1, 2 (5 + 625); n = 3, float64: all 5^6 = 15625 off-diagonal assignments with diagonal (0,0,0)%s' % (' and with diagonal (1,-2,2)' if thorough else '; every 3rd of them with diagonal (1,-2,2)'),
-                             'thr': list(THRS), 'copy': 'True and False',
+                             'thr': list(THRS), 'copy': 'True and False' + ('' if thorough else ' (n = 3: copy=False on every second assignment)'),
                              'dtype': 'float64 for all; int64 (n = 3: %s) for threshold_absolute and binarize only (normalize raises and invert truncates on integer arrays: not in the accepted domain)' % ('all assignments, both diagonals' if thorough else 'every 6th assignment, both diagonals'),
                              'functions': 'threshold_absolute, binarize, normalize (some nonzero entry), invert, invert twice, weight_conversion binarize/normalize/lengths'},
                      rule='one case = (function, matrix, parameter, copy); non-trivial = an entry is changed and an entry is kept (binarize: a weight other than 0/1; normalize: max |w| != 1; '
